@@ -600,7 +600,7 @@ class Gen:
             w = cfg["w"]
             if r < w[0]:
                 t = self.scalar()
-                if t["k"] == "int" and t["name"] == "uint8" and self.consts and not anon and rnd.random() < 0.25:
+                if t["k"] == "int" and t["name"] == "uint8" and self.consts and rnd.random() < 0.25:
                     shadow = rnd.choice(list(self.consts))       # a field named like a constant: the field wins in later expressions
                     if shadow not in [f["name"] for f in fields]:
                         fname = shadow
